@@ -16,6 +16,21 @@ from .l2 import pname
 from .rat import ONE, Rat
 
 
+def cw_key(atoms):
+    """Canonical atom tuple ((name, do-items, value), ...) or None when contradictory."""
+    seen = {}
+    for n, do, v in atoms:
+        d = tuple(sorted(do.items())) if isinstance(do, dict) else tuple(do)
+        if dict(d).get(n, v) != v:
+            return None  # X_{x'} = x with x != x'
+        if n in dict(d):
+            continue  # X_x = x holds surely
+        if seen.get((n, d), v) != v:
+            return None
+        seen[(n, d)] = v
+    return tuple(sorted((n, d, v) for (n, d), v in seen.items()))
+
+
 class SymFree:
     def __init__(self, names, card: dict | None = None):
         self.names = sorted(names)
@@ -26,6 +41,7 @@ class SymFree:
         self.constraints: list = []
         self._tables: dict = {}
         self._q: dict = {}
+        self.used_cw = False
 
     def _table(self, pop, do: dict):
         key = pname("fd", pop, ",".join(f"{k}={v}" for k, v in sorted(do.items())))
@@ -65,6 +81,27 @@ class SymFree:
                 raise KeyError(k)
         terms = [a for cell, a in table.items() if all(cell[free.index(k)] == v for k, v in assign.items())]
         return Rat((terms[0] if len(terms) == 1 else z3.Sum(terms),))
+
+    def prob_cw(self, pop, atoms) -> Rat:
+        """Cross-world joint: an uninterpreted positive function of the (sorted) atom set.
+
+        Sound for proving equalities (they then hold under every interpretation); a 'sat' that
+        involves such a term may be spurious and is reported as inconclusive by the callers."""
+        key = cw_key(atoms)
+        if key is None:
+            return Rat(None)
+        dos = {a[1] for a in key}
+        if len(dos) == 1:
+            return self.prob_rat(pop, dict(next(iter(dos))), {n: v for n, _, v in key})
+        self.used_cw = True
+        nm = pname("cw", pop, ";".join(f"{n}@{','.join(f'{k}={x}' for k, x in d)}={v}" for n, d, v in key))
+        v = self._q.get(nm)
+        if v is None:
+            v = z3.Real(nm)
+            self.params[nm] = v
+            self.constraints.append(v > 0)
+            self._q[nm] = v
+        return Rat((v,))
 
     def qfactor(self, cod, dom, vals) -> Rat:
         nm = pname("q", ",".join(cod), ",".join(dom), "".join(map(str, vals)))
@@ -112,6 +149,18 @@ class ExactFree:
             if all(cell[free.index(k)] == v for k, v in assign.items()):
                 tot += p
         return tot
+
+    def prob_cw(self, pop, atoms) -> Fr:
+        key = cw_key(atoms)
+        if key is None:
+            return Fr(0)
+        if not key:
+            return Fr(1)
+        dos = {a[1] for a in key}
+        if len(dos) == 1:
+            return self.prob(pop, dict(next(iter(dos))), {n: v for n, _, v in key})
+        nm = "cw|%s|%s" % (pop, ";".join(f"{n}@{','.join(f'{k}={x}' for k, x in d)}={v}" for n, d, v in key))
+        return self.params.get(nm, Fr(1, 5))
 
     def qfactor(self, cod, dom, vals) -> Fr:
         nm = "q|%s|%s|%s" % (",".join(cod), ",".join(dom), "".join(map(str, vals)))
